@@ -36,6 +36,7 @@ type File struct {
 	ci     int
 	rpos   int
 	fpos   *int // named pipe: delivery position shared by every open in this process
+	failAt int  // pipe: fail with EIO once this many bytes were delivered (0: never)
 	// sink
 	sink    []byte
 	limit   int
@@ -120,6 +121,11 @@ func (f *File) Read(p []byte) (int, error) {
 		if f.fpos != nil && *f.fpos > f.rpos {
 			f.rpos = *f.fpos // another descriptor on the same pipe has taken these bytes
 		}
+		if f.failAt > 0 && f.rpos >= f.failAt {
+			w.Stats.FaultsFired["stdin-read-error"]++
+			w.logOp("read", f.name, int64(f.rpos), len(p), "eio")
+			return 0, perr("read", f.name, syscall.EIO)
+		}
 		if f.rpos >= len(f.pdata) {
 			w.logOp("read", f.name, int64(f.rpos), len(p), "EOF")
 			return 0, io.EOF
@@ -134,6 +140,9 @@ func (f *File) Read(p []byte) (int, error) {
 			if c < n {
 				n = c
 			}
+		}
+		if f.failAt > 0 && f.rpos+n > f.failAt {
+			n = f.failAt - f.rpos
 		}
 		n = copy(p[:n], f.pdata[f.rpos:])
 		w.logOp("read", f.name, int64(f.rpos), len(p), fmt.Sprint(n))
@@ -231,6 +240,11 @@ func (f *File) Write(p []byte) (int, error) {
 			w.P.Fired = append(w.P.Fired, "sink_limit")
 			errno := syscall.ENOSPC
 			switch f.sinkErr {
+			case "once":
+				// a passing failure (a pipe another process has switched to
+				// non-blocking mode): this write fails, later ones go through
+				errno = syscall.EAGAIN
+				f.limit = -1
 			case "eio":
 				errno = syscall.EIO
 			case "epipe":
